@@ -151,8 +151,28 @@ func vars(d gen.DataSpec) jet.VarMap {
 	nop := jet.Func(func(a jet.Arguments) reflect.Value { return reflect.ValueOf("") })
 	vm.SetFunc("fail", nop)
 	vm.SetFunc("mark", nop)
+	vm.Set("rng", &plainStrRanger{items: []string{"ra", "rb"}})
+	vm.Set("rnd", litRenderer{})
 	return vm
 }
+
+type plainStrRanger struct {
+	items []string
+	i     int
+}
+
+func (r *plainStrRanger) Range() (reflect.Value, reflect.Value, bool) {
+	if r.i >= len(r.items) {
+		return reflect.Value{}, reflect.Value{}, true
+	}
+	r.i++
+	return reflect.ValueOf(r.i - 1), reflect.ValueOf(r.items[r.i-1]), false
+}
+func (r *plainStrRanger) ProvidesIndex() bool { return true }
+
+type litRenderer struct{}
+
+func (litRenderer) Render(rt *jet.Runtime) { rt.Writer.Write([]byte("(rnd)")) }
 
 const globalsTmpl = "/zglobals.jet"
 const dumpTmpl = "/zdump.jet"
